@@ -342,7 +342,9 @@ class SymSet:
 
     def update(self, *others):
         for xs in others:
-            for x in xs:
+            # the order in which another symbolic set is poured in is not observable (any later iteration of the
+            # result explores every order), so no order fork is needed here
+            for x in (xs.items if type(xs) is SymSet else xs):
                 self.add(x)
 
     def _order(self):
@@ -352,7 +354,8 @@ class SymSet:
         if n > self.MAX_PERM:
             raise Unsupported("iteration over a symbolic set of more than 4 elements")
         perms = list(itertools.permutations(range(n)))
-        k = Ctx.cur.choice(f"setorder#{id(self) % 997}", len(perms))
+        ctx = Ctx.cur
+        k = ctx.choice(f"setorder#{sum(1 for c in ctx.choices if c.startswith('setorder#'))}", len(perms))
         return [self.items[j] for j in perms[k]]
 
     def __iter__(self): return iter(self._order())
@@ -367,7 +370,7 @@ class SymSet:
 
     def intersection(self, o): return SymSet([i for i in self.items if sx_contains(i, o)])
     def difference(self, o): return SymSet([i for i in self.items if not sx_contains(i, o)])
-    def union(self, o): return SymSet([*self.items, *o])
+    def union(self, o): return SymSet([*self.items, *(o.items if type(o) is SymSet else o)])
     def issubset(self, o): return all(sx_contains(i, o) for i in self.items)
     def copy(self): return SymSet(self.items)
     __and__ = intersection
